@@ -249,6 +249,177 @@ pub fn eval_c10_real(case: &Case) -> Outcome {
     outcome(&h, verdict, nontrivial, vec![kind_class(case.kind), "real-threads"])
 }
 
+/// C14 run-time part: no sequence of safe public calls produces two owners of one element.
+pub fn eval_c14_seq(case: &Case) -> Outcome {
+    let h = crate::seq::run_seq(case);
+    let n = h.info.len;
+    let mut verdict: Result<(), Violation> = Ok(());
+    if case.kind.consuming() && case.layout != Layout::Zst {
+        let mut owners = vec![0u32; n];
+        for id in &h.held_ids {
+            if (*id as usize) < n {
+                owners[*id as usize] += 1;
+            }
+        }
+        for i in 0..n {
+            let mid = h.ledger_mid.drops.get(i).copied().unwrap_or(0);
+            if owners[i] > 1 {
+                verdict = Err(Violation {
+                    what: "two-owners",
+                    detail: format!("safe calls moved element {} out to {} callers", i, owners[i]),
+                });
+                break;
+            }
+            if owners[i] == 1 && mid > 0 {
+                verdict = Err(Violation {
+                    what: "two-owners",
+                    detail: format!("element {} was moved out to a caller and also destroyed by the iterator ({} time(s))", i, mid),
+                });
+                break;
+            }
+            if mid > 1 {
+                verdict = Err(Violation {
+                    what: "two-owners",
+                    detail: format!("element {} was destroyed {} times by the iterator", i, mid),
+                });
+                break;
+            }
+        }
+    }
+    let has = |f: &dyn Fn(&Op) -> bool| case.threads.iter().any(|t| t.iter().any(|o| f(o)));
+    let ll = has(&|o| o.is_low_level());
+    let op_class = if has(&|o| matches!(o, Op::LlGet { .. })) {
+        "AtomicIter::get"
+    } else if has(&|o| matches!(o, Op::LlStore { .. })) {
+        "AtomicCounter::store"
+    } else {
+        "other-calls"
+    };
+    let mut classes = vec![kind_class(case.kind), op_class];
+    if ll {
+        classes.push("low-level-call");
+    }
+    Outcome {
+        verdict,
+        sig_ctx: format!("{}/{}", kind_class(case.kind), op_class),
+        nontrivial: ll && case.kind.consuming(),
+        classes,
+        inconclusive: false,
+        evals: 1,
+        dfs: None,
+        witness: None,
+    }
+}
+
+fn c14_programs(ctx: &mut Ctx) {
+    use crate::typeprobe::{compile, find_rlib, programs, Expect};
+    let Some((rlib, deps)) = find_rlib() else {
+        ctx.trouble.push("cannot find the crate's rlib in harness/target/release/deps".into());
+        return;
+    };
+    let dir = crate::known::verif_root().join("harness").join("target").join("probes");
+    let _ = std::fs::remove_dir_all(&dir);
+    if std::fs::create_dir_all(&dir).is_err() {
+        ctx.trouble.push("cannot create the probe directory".into());
+        return;
+    }
+    let progs = programs();
+    let t0 = std::time::Instant::now();
+    let results: Vec<crate::typeprobe::Compiled> = {
+        let next = std::sync::atomic::AtomicUsize::new(0);
+        let slots: Vec<std::sync::Mutex<Option<crate::typeprobe::Compiled>>> = progs.iter().map(|_| std::sync::Mutex::new(None)).collect();
+        std::thread::scope(|s| {
+            for _ in 0..ctx.workers.max(1) {
+                s.spawn(|| loop {
+                    let i = next.fetch_add(1, std::sync::atomic::Ordering::Relaxed);
+                    if i >= progs.len() {
+                        break;
+                    }
+                    let r = compile(&progs[i], &rlib, &deps, &dir);
+                    *slots[i].lock().expect("lock") = Some(r);
+                });
+            }
+        });
+        slots.into_iter().map(|m| m.into_inner().expect("lock").expect("compiled")).collect()
+    };
+    let index: std::collections::HashMap<&str, usize> = progs.iter().enumerate().map(|(i, p)| (p.name.as_str(), i)).collect();
+    let mut negatives_with_valid_twin = 0u64;
+    let mut class_hist: std::collections::BTreeMap<String, u64> = Default::default();
+    for (i, p) in progs.iter().enumerate() {
+        let r = &results[i];
+        match &p.expect {
+            Expect::Accept => {
+                if !r.ok {
+                    ctx.trouble.push(format!("valid program '{}' does not compile: {}", p.name, r.first_error));
+                }
+            }
+            Expect::Reject(codes) => {
+                let twin_ok = p.twin.as_ref().and_then(|t| index.get(t.as_str())).map(|j| results[*j].ok).unwrap_or(false);
+                if !twin_ok {
+                    ctx.trouble.push(format!("the valid twin of probe '{}' is missing or does not compile", p.name));
+                    continue;
+                }
+                negatives_with_valid_twin += 1;
+                *class_hist.entry(format!("programs:{}", p.class)).or_insert(0) += 1;
+                if r.ok && std::env::var("VERIF_C14_DEBUG").is_ok() {
+                    eprintln!("ACCEPTED: {}", p.name);
+                }
+                if r.ok {
+                    let sig = format!("C14/accepted-invalid-program/{}", p.class);
+                    if ctx.open.iter().any(|o| o.0 == sig) {
+                        *ctx.tally.excluded_known.entry(sig.clone()).or_insert(0) += 1;
+                        ctx.known_hit.entry(sig).or_insert_with(|| format!("program '{}' compiles", p.name));
+                    } else if ctx.prog_failure.is_none() {
+                        let rdir = crate::known::verif_root().join("replays").join("C14");
+                        let _ = std::fs::create_dir_all(&rdir);
+                        let path = rdir.join(format!("found-{}.rs", p.name));
+                        let _ = std::fs::write(&path, &p.src);
+                        ctx.prog_failure = Some(crate::driver::ProgFailure {
+                            sig,
+                            detail: format!("the program '{}' must be rejected by the compiler ({}) but compiles; its valid twin '{}' compiles as well", p.name, p.class, p.twin.clone().unwrap_or_default()),
+                            replay: path,
+                        });
+                    }
+                } else if !r.codes.iter().any(|c| codes.contains(&c.as_str())) {
+                    ctx.trouble.push(format!("probe '{}' is rejected for an unexpected reason ({:?}): {}", p.name, r.codes, r.first_error));
+                }
+            }
+        }
+    }
+    ctx.tally.evaluations += progs.len() as u64;
+    for (i, p) in progs.iter().enumerate() {
+        if matches!(p.expect, Expect::Reject(_)) {
+            ctx.tally.nontrivial_hashes.insert(crate::case::fnv1a(p.src.as_bytes()));
+            if ctx.tally.samples.len() < 3 && i % 37 == 0 {
+                ctx.tally.samples.push(serde_json::json!({"program": p.name, "expect": format!("{:?}", p.expect), "source": p.src}));
+            }
+        }
+    }
+    for (k, v) in class_hist {
+        *ctx.tally.classes.entry(k).or_insert(0) += v;
+    }
+    ctx.tally.campaigns.push(serde_json::json!({
+        "name": "programs", "programs": progs.len(), "negative_probes_with_compiling_twin": negatives_with_valid_twin,
+        "exhaustive": true, "space": "the finite program grammar of harness/src/typeprobe.rs (constructors x element types x usages; borrow probes x kinds)",
+        "wall_s": t0.elapsed().as_secs_f64(),
+    }));
+}
+
+fn cfg_c14(thorough: bool, known_excluded: bool) -> GenCfg {
+    let mut kinds = CONSUMING.to_vec();
+    kinds.extend_from_slice(&[Kind::VecOwn, Kind::ArrOwn, Kind::Slice, Kind::ClonedSlice, Kind::Range]);
+    let mut c = GenCfg::base(&kinds);
+    c.max_len = if thorough { 24 } else { 10 };
+    c.max_threads = 2;
+    c.max_ops = 8;
+    c.w_lowlevel = 14;
+    c.w_skip = 1;
+    c.w_len = 1;
+    c.ll_exclude_known = known_excluded;
+    c.terminal_mode = 2;
+    c
+}
+
 // ------------------------------------------------------------------------------------------------
 // generator presets
 
@@ -312,6 +483,11 @@ pub fn assumptions_common() -> Vec<String> {
 
 pub fn check(ctx: &mut Ctx) -> Option<Meta> {
     let thorough = ctx.tier == "thorough";
+    #[cfg(orx_concurrent_iter_verif)]
+    if matches!(ctx.prop.as_str(), "C08" | "C10" | "C13") {
+        // second half of a two-binary property: the schedule-engine campaigns
+        return crate::props_sched::check(ctx);
+    }
     match ctx.prop.as_str() {
         "C10" => {
             crate::replay::replay_saved(ctx, "seq", &eval_c10_seq);
@@ -438,6 +614,71 @@ pub fn check(ctx: &mut Ctx) -> Option<Meta> {
                 assumptions: a,
             })
         }
+        "C13" => {
+            crate::replay::replay_saved(ctx, "seq", &crate::lockstep::eval_c13);
+            let mut cfg = GenCfg::base(ADAPTORS);
+            cfg.max_len = if thorough { 40 } else { 16 };
+            cfg.max_threads = 3;
+            cfg.max_ops = 7;
+            cfg.w_len = 2;
+            cfg.w_has = 1;
+            cfg.w_skip = 1;
+            cfg.w_chunk = 5;
+            cfg.w_bufnext = 6;
+            cfg.w_drain_composite = 1;
+            cfg.terminal_mode = 2;
+            let rule = "E2 lock-step: every cloned()/copied() adaptor kind (over slice, Vec, array and a wrapped iterator of references with exact/inexact/unbounded hints) and its underlying reference-yielding iterator are built over the same data and driven by the same generated operation list incl. into_seq_iter; oracle: operation by operation equal indices, chunk boundaries, len() trajectories, try_get_len / has_more, end and skip behaviour, items are owned clones of the same elements, source intact, clone ledger balanced; non-trivial = history contains a one-shot chunk, a buffered chunk, a length query and a skip or into_seq_iter".to_string();
+            ctx.run_campaign(&Campaign {
+                name: "seq-lockstep".into(),
+                cases: scale_cases(ctx, 200_000, 30),
+                make_strategy: &|| case_strategy(&cfg),
+                run: &crate::lockstep::eval_c13,
+                rule: rule.clone(),
+            });
+            Some(Meta {
+                level: "exploration",
+                rule,
+                assumptions: assumptions_common(),
+            })
+        }
+        "C19" => {
+            crate::replay::replay_saved(ctx, "seq", &crate::multi::eval_c19);
+            let rule = "E2 with several iterators: a collection (slice, Vec, array, range; every non-consuming constructor) and an interleaved history of 'new iterator', 'clone iterator i' and pull / skip / length operations on iterator j; oracle: one model cursor per iterator (a clone starts at the original's position), every delivered reference has the address of the collection element at its index, afterwards the collection is unchanged, nothing was cloned or dropped, and it can be mutated and dropped normally; non-trivial = >=2 iterators at different positions and >=1 clone taken after progress".to_string();
+            ctx.run_campaign(&Campaign {
+                name: "seq-multi-iterator".into(),
+                cases: scale_cases(ctx, 200_000, 30),
+                make_strategy: &|| crate::multi::strategy(thorough),
+                run: &crate::multi::eval_c19,
+                rule: rule.clone(),
+            });
+            Some(Meta {
+                level: "exploration",
+                rule,
+                assumptions: assumptions_common(),
+            })
+        }
+        "C14" => {
+            c14_programs(ctx);
+            // open findings: their saved minimal cases are replayed; if they still fail they are reported as known
+            crate::replay::replay_saved(ctx, "seq", &eval_c14_seq);
+            let cfg = cfg_c14(thorough, true);
+            let rule = "(a) programs: the finite grammar of client programs (18 ways to obtain an iterator x 6 element types x construct / share in thread::scope / move into thread::spawn; wrapped iterators capturing Rc vs Arc; 14 borrow probes x source kinds), each negative program paired with a valid twin that must compile; oracle: rustc rejects the negative program with an error of the expected class (E0277/E0599 for thread safety, E0499/E0502/E0505/E0506/E0597/E0716 for borrows); (b) sequences over all safe public calls on consuming iterators incl. AtomicIter::{fetch_one, fetch_n, progress_and_get_begin_idx, early_exit} (get / AtomicCounter::store are the known finding D10 and are excluded by construction, their minimal cases are replayed); oracle: identity ledger - no element has two owners; non-trivial = negative probe whose twin compiles / sequence with >=1 low-level call on a consuming kind".to_string();
+            ctx.run_campaign(&Campaign {
+                name: "seq-safe-call-sequences".into(),
+                cases: scale_cases(ctx, 100_000, 50),
+                make_strategy: &|| case_strategy(&cfg),
+                run: &eval_c14_seq,
+                rule: rule.clone(),
+            });
+            let mut a = assumptions_common();
+            a.push("the program family is finite: evidence about the listed constructors, adaptors and impls, not about all safe programs".into());
+            a.push("rustc's verdict on a program is trusted".into());
+            Some(Meta {
+                level: "exploration",
+                rule,
+                assumptions: a,
+            })
+        }
         "C15" => {
             crate::replay::replay_saved(ctx, "seq", &eval_c15_seq);
             crate::replay::replay_saved(ctx, "real", &eval_c15_real);
@@ -479,12 +720,20 @@ pub fn check(ctx: &mut Ctx) -> Option<Meta> {
 
 /// Evaluates one case under the property's oracle (replay files).
 pub fn eval_for(prop: &str, engine: &str) -> Option<fn(&Case) -> Outcome> {
+    #[cfg(orx_concurrent_iter_verif)]
+    if engine == "sched" {
+        return crate::props_sched::eval_for(prop, engine);
+    }
     match (prop, engine) {
+        ("C10", "real") => Some(eval_c10_real),
         ("C10", _) => Some(eval_c10_seq),
         ("C08", "seq") => Some(eval_c08_seq),
         ("C08", "real") => Some(eval_c08_real),
         ("C15", "real") => Some(eval_c15_real),
         ("C16", _) => Some(crate::c16::eval_c16),
+        ("C14", _) => Some(eval_c14_seq),
+        ("C13", _) => Some(crate::lockstep::eval_c13),
+        ("C19", _) => Some(crate::multi::eval_c19),
         ("C17", _) => Some(crate::twin::eval_c17),
         ("C15", _) => Some(eval_c15_seq),
         _ => {
